@@ -106,15 +106,19 @@ def gen_value(t, rng, c: Counter, force=None):
     if k in ("u32", "ref_u32"):
         return 1000 + c.next()
     if k in ("string", "ref_str", "static_str"):
+        if force == "blank":
+            return ""      # an empty string is a value like any other (its borrowed view has size 0)
         return f"s{c.next()}"
     if k == "ref_bytes":
+        if force == "blank":
+            return []
         n = c.next()
         return [n % 250, (n + 1) % 250]
     if k == "ref_unit":
         return "Unit"
     if k == "opt":
-        if force in ("first", "owned", "empty") or (force is None and rng.random() < 0.7):
-            return ("Some", gen_value(t[1], rng, c, force if force in ("owned", "empty") else None))
+        if force in ("first", "owned", "empty", "blank") or (force is None and rng.random() < 0.7):
+            return ("Some", gen_value(t[1], rng, c, force if force in ("owned", "empty", "blank") else None))
         return None
     if k == "res":
         if force == "owned":
@@ -135,11 +139,11 @@ def gen_value(t, rng, c: Counter, force=None):
         n = rng.choice([0, 1, 2, 3, 4]) if force is None else (2 if force in ("first", "owned") else 0)
         return ["vec"] + [gen_value(t[1], rng, c, force if force == "owned" else None) for _ in range(n)]
     if k == "poll":
-        if force in ("first", "owned", "empty") or (force is None and rng.random() < 0.7):
-            return ("Ready", gen_value(t[1], rng, c, force if force in ("owned", "empty") else None))
+        if force in ("first", "owned", "empty", "blank") or (force is None and rng.random() < 0.7):
+            return ("Ready", gen_value(t[1], rng, c, force if force in ("owned", "empty", "blank") else None))
         return ("Pending",)
     if k == "tup":
-        return ("tup",) + tuple(gen_value(x, rng, c, force if force in ("owned", "empty") else None) for x in t[1:])
+        return ("tup",) + tuple(gen_value(x, rng, c, force if force in ("owned", "empty", "blank") else None) for x in t[1:])
     raise ValueError(t)
 
 
